@@ -5,7 +5,7 @@ import CpModel.Wsgi
 
   Input (one plan per line, space separated):
 
-      METH NOHOST BADQ READS CLOSES START { "|" PAGE }
+      METH NOHOST BADQ READS CLOSES START GLOBALTB { "|" PAGE }
       PAGE  = DISPATCH NS BODY HANDLER ERRRESP ERRPAGE SHOWTB STREAM HOOKS
       OUT   = ok | he<code> | hr<code> | ir<target> | ex
       HANDLER = OUT/SHAPE/STATUS      SHAPE = bytes|list|gen|gen<k>|file|none|str|nonit   STATUS = N | <n>
@@ -13,7 +13,7 @@ import CpModel.Wsgi
       HOOKS = - | HOOK,HOOK,…         HOOK = <point 0..7>.<id>.<prio>.<failsafe 0|1>.<OUT>   (attachment order)
       METH  = get|head|post           READS = N | <m>
 
-  Output: `J=<entries> B=<body kind> T=<N|0|1> X=<0|1> F=<0|1>`; entries (comma separated, `-` if none)
+  Output: `J=<entries> B=<body kind> T=<N|0|1> X=<escaped> F=<out of fuel> Q=<last request's show_tracebacks> I=<trapped before return>`; entries (comma separated, `-` if none)
   `v<r>.<p>` visit, `h<r>.<p>.<id>` hook call, `H<r>` handler, `R<r>` custom error_response,
   `P<r>` error_page callable, `S<code>.<excinfo>` start_response, `C` close().
 -/
@@ -98,10 +98,11 @@ def splitBar : List String → List (List String)
 
 def parsePlan (line : String) : Option Plan :=
   match splitBar (Proto.fields line) with
-  | [m, nh, bq, rd, cl, st] :: pages => do
+  | [m, nh, bq, rd, cl, st, gtb] :: pages => do
     let pages ← pages.mapM parsePage
     pure { pages := pages, start := ← st.toNat?, meth := ← parseMethod m, noHost := ← parseBool nh,
-           badQuery := ← parseBool bq, reads := ← Proto.optNat? rd, closes := ← cl.toNat? }
+           badQuery := ← parseBool bq, reads := ← Proto.optNat? rd, closes := ← cl.toNat?,
+           globalTb := ← parseBool gtb }
   | _ => none
 
 def b01 (b : Bool) : String := if b then "1" else "0"
@@ -129,7 +130,7 @@ def showResult (res : Result) : String :=
   let js := res.j.map showEntry
   let j := if js.isEmpty then "-" else ",".intercalate js
   let t := match res.tail with | none => "N" | some b => b01 b
-  s!"J={j} B={showBody res.body} T={t} X={b01 res.escaped.isSome} F={b01 res.outOfFuel}"
+  s!"J={j} B={showBody res.body} T={t} X={b01 res.escaped.isSome} F={b01 res.outOfFuel} Q={b01 res.reqShowTb} I={b01 res.trappedAtInit}"
 
 def step (line : String) : String :=
   match parsePlan line with
